@@ -270,6 +270,12 @@ func init() {
 		"regexp.QuoteMeta": simple(func(e *Engine, s *State, a []Value, at ssa.Instruction, _ *ssa.Function) Value {
 			return concStr(regexp.QuoteMeta(concOf(a[0], "regexp.QuoteMeta")))
 		}),
+		"strings.Contains": simple(func(e *Engine, s *State, a []Value, at ssa.Instruction, _ *ssa.Function) Value {
+			if strings.Contains(concOf(a[0], "strings.Contains"), concOf(a[1], "strings.Contains")) {
+				return Sc{True}
+			}
+			return Sc{False}
+		}),
 		"strings.ReplaceAll": simple(func(e *Engine, s *State, a []Value, at ssa.Instruction, _ *ssa.Function) Value {
 			return concStr(strings.ReplaceAll(concOf(a[0], "strings.ReplaceAll"), concOf(a[1], "strings.ReplaceAll"), concOf(a[2], "strings.ReplaceAll")))
 		}),
